@@ -429,7 +429,7 @@ func (g *pg) stmt(depth int) []lang.Stmt {
 		return []lang.Stmt{g.switchStmt(depth)}
 	case k < 86 && g.o.EarlyRet:
 		return []lang.Stmt{lang.Return{X: g.retExpr()}}
-	case k < 90:
+	case k < 90 || (k < 97 && len(g.fns) > 0 && !g.o.OptBias):
 		if f, ok := g.callable(true); ok {
 			c := g.callOf(f, 1)
 			if f.void || len(asg) == 0 || g.chance("callstmt", 40) {
@@ -438,9 +438,27 @@ func (g *pg) stmt(depth int) []lang.Stmt {
 			return []lang.Stmt{lang.Assign{N: rapid.SampledFrom(asg).Draw(g.t, "callasg"), X: c}}
 		}
 		return []lang.Stmt{g.traceStmt()}
-	case k < 94 && g.o.OptBias:
+	case k < 93 && g.o.OptBias:
 		// an expression statement: leaves a value on the stack
 		return []lang.Stmt{lang.ExprStmt{X: g.intExpr(1)}}
+	case k < 95 && g.o.OptBias:
+		// square roots (of non-constants, and of constants unless the known
+		// finding about their folding is open) and constant division by zero
+		switch g.pick("optk", 4) {
+		case 0:
+			if n, ok := g.intName(); ok {
+				return []lang.Stmt{lang.ExprStmt{X: lang.Call{Fn: "trace", Args: []lang.Expr{lang.Unary{Op: "√", X: lang.Name{N: n}}}}}}
+			}
+		case 1:
+			var x lang.Expr = lang.Lit{V: lang.Float(float64(rapid.Int64Range(0, 40).Draw(g.t, "sq")) / 4)}
+			if !g.o.NoSqrtFold && g.chance("sqint", 50) {
+				x = g.intLit()
+			}
+			return []lang.Stmt{lang.ExprStmt{X: lang.Call{Fn: "trace", Args: []lang.Expr{lang.Binary{Op: "+", L: lang.Unary{Op: "√", X: x}, R: g.intLit()}}}}}
+		case 2:
+			return []lang.Stmt{lang.If{C: g.cond(1), Then: []lang.Stmt{lang.ExprStmt{X: lang.Binary{Op: "/", L: g.intLit(), R: lang.Lit{V: lang.Int(0)}}}}}}
+		}
+		return []lang.Stmt{lang.ExprStmt{X: lang.Call{Fn: "trace", Args: []lang.Expr{lang.Binary{Op: rapid.SampledFrom([]string{"<", ">", "<=", ">=", "%", "**"}).Draw(g.t, "cmpconst"), L: g.intLit(), R: g.intLit()}}}}}
 	case k < 96 && g.o.ErrStmts:
 		switch g.pick("errk", 4) {
 		case 0:
